@@ -63,5 +63,8 @@ class TeeProcessor:
         finally:
             if file is not None:
                 file.close()
+            # N.B. Nobody else closes our end of the pipe promptly (a failed
+            # task's handle stays referenced until the end of the run).
+            pipe.close()
         if record_error is not None:
             raise record_error
